@@ -173,14 +173,25 @@ struct Observed {
     raw: Vec<u8>,
     h2: Option<(u16, Vec<(String, String)>, Vec<u8>)>,
     error: Option<String>,
+    /// the exchange was given up after 120 s of virtual time in which the server neither read,
+    /// answered nor closed
+    hung: bool,
 }
 
 /// Drive one raw byte stream against a server end; returns what the client saw.
 async fn raw_exchange(stream: SimStream, bytes: Vec<u8>, cuts: Vec<usize>, gap_ms: u64, forced: Arc<Mutex<u64>>, half_close: bool) -> Observed {
     let mut f = Fragmenter { inner: stream, cuts, sent: 0, gap_ms, sleep: None, waited_polls: 0, gap_done: false, fragments_forced: forced };
     let mut obs = Observed::default();
-    if let Err(e) = f.write_all(&bytes).await {
-        obs.error = Some(format!("write: {}", e.kind()));
+    // (bounded: a server that stops reading leaves the writer blocked on a full pipe, and a run in
+    // which everybody waits without a timer never ends)
+    match tokio::time::timeout(Duration::from_secs(120), f.write_all(&bytes)).await {
+        Ok(Ok(())) => {}
+        Ok(Err(e)) => obs.error = Some(format!("write: {}", e.kind())),
+        Err(_) => {
+            obs.error = Some("server stopped reading: the request could not be written within 120 s".into());
+            obs.hung = true;
+            return obs;
+        }
     }
     // hyper aborts an exchange when the client's write half closes before the response is out
     // (http1 half_close is off by default), so only streams that *end* early are half-closed
@@ -191,7 +202,10 @@ async fn raw_exchange(stream: SimStream, bytes: Vec<u8>, cuts: Vec<usize>, gap_m
     match tokio::time::timeout(Duration::from_secs(120), f.read_to_end(&mut buf)).await {
         Ok(Ok(_)) => {}
         Ok(Err(e)) => obs.error = Some(format!("read: {}", e.kind())),
-        Err(_) => obs.error = Some("server neither answered nor closed within 120 s".into()),
+        Err(_) => {
+            obs.error = Some("server neither answered nor closed within 120 s".into());
+            obs.hung = true;
+        }
     }
     obs.raw = buf;
     obs
@@ -374,7 +388,10 @@ impl Scenario for SniffSim {
                 // the server reads with the configured mode (client -> server direction)
                 let c = net.raw_connect("http://a.test", Some((case.read_mode.clone(), IoMode::plain()))).expect("connect");
                 let sut = match &case.stream {
-                    StreamKind::H2 { body_len } => h2_exchange(c, case.cuts.clone(), case.gap_ms, *body_len, forced2.clone()).await,
+                    StreamKind::H2 { body_len } => match tokio::time::timeout(Duration::from_secs(600), h2_exchange(c, case.cuts.clone(), case.gap_ms, *body_len, forced2.clone())).await {
+                        Ok(o) => o,
+                        Err(_) => Observed { error: Some("HTTP/2 exchange made no progress for 600 s".into()), hung: true, ..Default::default() },
+                    },
                     k => raw_exchange(c, raw_bytes(k), case.cuts.clone(), case.gap_ms, forced2.clone(), matches!(k, StreamKind::PrefixEof { .. } | StreamKind::H1HalfClose { .. })).await,
                 };
                 // ---- reference: the same bytes, unfragmented, against plain hyper
@@ -494,6 +511,9 @@ impl Scenario for SniffSim {
                 }
             }
             _ => {
+                if sut.hung && !reference.hung {
+                    Self::viol(&mut out, "connection_hangs", case, format!("stream {:?} cut at {:?}: {} (plain hyper answers or closes)", case.stream, case.cuts, sut.error.clone().unwrap_or_default()));
+                }
                 if sut.raw != reference.raw {
                     let a = String::from_utf8_lossy(&sut.raw[..sut.raw.len().min(60)]).to_string();
                     let b = String::from_utf8_lossy(&reference.raw[..reference.raw.len().min(60)]).to_string();
